@@ -331,7 +331,7 @@ def r8(ctx, fs):
     _, cl = posted(fs, f, env=env)
     got = [c for c, _, _ in cl]
     ok = len(got) == 1 and got[0][0] == () and len(got[0][1]) == 3 and ('!', EX + 'xi') in got[0][1] and any(isinstance(l, tuple) and l[0] == '!' and l[1][0] == 'lit' and 'sigma' in show(l) for l in got[0][1]) and \
-        any(isinstance(l, tuple) and l[0] == 'lit' and 'sat_core::new_var' in show(l) for l in got[0][1])      # sigma_xi is a fresh variable
+        any(isinstance(l, tuple) and l[0] == 'lit' and ('sat_core::new_var' in show(l) or any('sat_core::new_var' in show(canon(d['init'], env, subst=False)) and show(l) == '(lit %s)' % d['name'] for d in f.nodes() if d.get('k') == 'VarDecl' and isinstance(d.get('init'), dict))) for l in got[0][1])      # sigma_xi is a fresh variable
     binds = [canon(n, env, subst=False) for n in f.nodes() if n.get('callee_name') == 'smt::theory::bind']
     ctx.instance(rid, [f.id, 'clause'], {'posted': [show_clause(c) for c in got], 'binds': [show(b) for b in binds]})
     if not ok or len(binds) != 1:
